@@ -177,12 +177,13 @@ def run(ctx):
     q = copy.deepcopy(p0)
     q["expect"]["alg_states"] = q["expect"]["alg_states"] + [q["expect"]["states"][0]]
     q["expect"]["states"] = q["expect"]["states"][1:]
-    if not check_prog((q, None))["bad"]:
-        raise MachineryError("binding self-test: corrupted expectation (state moved to alg_states) not noticed")
+    r = check_prog((q, None))
+    if r["kind"] != "ok" or not r["bad"]:
+        raise MachineryError("binding self-test: corrupted expectation (state moved to alg_states) not noticed: %s" % (r,))
     q = copy.deepcopy(p0)
     q["groups"] = [list(reversed(g)) for g in q["groups"]]
     two_same = [l for l in LISTS if len([n for n in p0["expect"][l] if n in p0["groups"][0]]) == 2]
-    if two_same and not check_prog((q, None))["bad"]:
+    if two_same and not check_prog((q, None))["bad"] and check_prog((q, None))["kind"] == "ok":
         raise MachineryError("binding self-test: reversed declaration order not noticed")
     ctx.traces += len(progs)
     ctx.extra["per_tag_coverage"] = dict(sorted(cover.items()))
